@@ -33,7 +33,7 @@ var pkgIndexes = map[*ssa.Package]*pkgIndex{}
 // pkgFuncsAll lists the functions of package rel plus every closure they create
 // (closures of a helper inlined by the variant machinery live on in its callers).
 func pkgFuncsAll(p *core.Prog, rel string) []*ssa.Function {
-	out := append([]*ssa.Function(nil), p.PkgFuncs(rel)...)
+	out := liveFuncs(p.PkgFuncs(rel))
 	seen := map[*ssa.Function]bool{}
 	for _, f := range out {
 		seen[f] = true
@@ -42,7 +42,7 @@ func pkgFuncsAll(p *core.Prog, rel string) []*ssa.Function {
 		for _, b := range out[i].Blocks {
 			for _, in := range b.Instrs {
 				if mc, ok := in.(*ssa.MakeClosure); ok {
-					if g, ok := mc.Fn.(*ssa.Function); ok && !seen[g] && g.Blocks != nil && (g.Synthetic == "" || strings.HasPrefix(g.Synthetic, "godcheck")) {
+					if g, ok := mc.Fn.(*ssa.Function); ok && !seen[g] && g.Blocks != nil && (g.Synthetic == "" || strings.HasPrefix(g.Synthetic, "godcheck") || inlinedBoundWrapper(g)) {
 						seen[g] = true
 						out = append(out, g)
 					}
@@ -106,11 +106,54 @@ func indexOf(pkg *ssa.Package) *pkgIndex {
 // boundTarget returns the declared method behind a synthetic bound-method
 // closure / thunk (x.m used as a function value), or nil.
 func boundTarget(w *ssa.Function) *ssa.Function {
-	if w == nil || w.Synthetic == "" || w.Object() == nil {
+	t := wrapperTarget(w)
+	if t == nil || !callsStatically(w, t) {
+		return nil
+	}
+	return t
+}
+
+// wrapperTarget returns the declared function a synthetic wrapper was generated for.
+func wrapperTarget(w *ssa.Function) *ssa.Function {
+	if w == nil || w.Synthetic == "" || strings.HasPrefix(w.Synthetic, "godcheck") || w.Object() == nil {
 		return nil
 	}
 	if tf, ok := w.Object().(*types.Func); ok {
 		return w.Prog.FuncValue(tf)
+	}
+	return nil
+}
+
+func callsStatically(f, callee *ssa.Function) bool {
+	for _, b := range f.Blocks {
+		for _, in := range b.Instrs {
+			if c, ok := in.(ssa.CallInstruction); ok && c.Common().StaticCallee() == callee {
+				return true
+			}
+		}
+	}
+	return false
+}
+
+// inlinedBoundWrapper: a bound-method wrapper (x.m used as a function value) into which a
+// program variant has inlined m: the wrapper is then m's body over the captured receiver
+// and is analysed like any other closure of the package.
+func inlinedBoundWrapper(w *ssa.Function) bool {
+	t := wrapperTarget(w)
+	return t != nil && t.Pkg != nil && len(w.FreeVars) > 0 && !callsStatically(w, t)
+}
+
+// pkgOf: the package a function belongs to (synthetic wrappers carry none: the package
+// of the function they wrap; closures: that of the enclosing function).
+func pkgOf(f *ssa.Function) *ssa.Package {
+	for i := 0; f != nil && i < 8; i++ {
+		if f.Pkg != nil {
+			return f.Pkg
+		}
+		if t := wrapperTarget(f); t != nil && t.Pkg != nil {
+			return t.Pkg
+		}
+		f = f.Parent()
 	}
 	return nil
 }
@@ -124,15 +167,52 @@ func freeVarBinding(fv *ssa.FreeVar) ssa.Value {
 			idx = i
 		}
 	}
-	ix := indexOf(fn.Pkg)
+	ix := indexOf(pkgOf(fn))
 	if idx < 0 || ix == nil {
 		return nil
 	}
 	ms := ix.mcs[fn]
-	if len(ms) != 1 || idx >= len(ms[0].Bindings) {
+	if len(ms) == 0 || idx >= len(ms[0].Bindings) {
 		return nil
 	}
-	return ms[0].Bindings[idx]
+	if len(ms) == 1 {
+		return ms[0].Bindings[idx]
+	}
+	// A closure created at several sites (the inlined copies of the function that creates
+	// it share it): the free variable denotes a definite value only when every site binds
+	// the same one, compared after following captures outwards.
+	var common ssa.Value
+	for _, mc := range ms {
+		if idx >= len(mc.Bindings) {
+			return nil
+		}
+		b := mc.Bindings[idx]
+		for i := 0; i < 8; i++ {
+			inner, ok := b.(*ssa.FreeVar)
+			if !ok || inner == fv {
+				break
+			}
+			nb := freeVarBinding(inner)
+			if nb == nil {
+				break
+			}
+			b = nb
+		}
+		if common != nil && b != common {
+			return nil
+		}
+		common = b
+	}
+	return common
+}
+
+// closureSites lists the instructions that create closure f in the (live) functions of its package.
+func closureSites(f *ssa.Function) []*ssa.MakeClosure {
+	ix := indexOf(pkgOf(f))
+	if ix == nil {
+		return nil
+	}
+	return ix.mcs[f]
 }
 
 // paramBinding returns the argument passed for parameter p when p belongs to an
@@ -144,7 +224,7 @@ func paramBinding(p *ssa.Parameter) ssa.Value {
 	if fn == nil || fn.Parent() != nil || fn.Object() == nil || fn.Object().Exported() || fn.Synthetic != "" {
 		return nil
 	}
-	ix := indexOf(fn.Pkg)
+	ix := indexOf(pkgOf(fn))
 	if ix == nil || ix.valueUse[fn] || len(ix.sites[fn]) != 1 {
 		return nil
 	}
@@ -162,7 +242,7 @@ func onlySite(fn *ssa.Function) ssa.CallInstruction {
 	if fn == nil || fn.Parent() != nil || fn.Object() == nil || fn.Object().Exported() {
 		return nil
 	}
-	ix := indexOf(fn.Pkg)
+	ix := indexOf(pkgOf(fn))
 	if ix == nil || ix.valueUse[fn] || len(ix.sites[fn]) != 1 {
 		return nil
 	}
@@ -252,6 +332,17 @@ func resolveLocal(v ssa.Value) ssa.Value { return resolveWith(v, false) }
 func resolveWith(v ssa.Value, params bool) ssa.Value {
 	for i := 0; i < 24; i++ {
 		v = core.Strip(v)
+		if fv, ok := v.(*ssa.FreeVar); ok {
+			// a value captured by value (the arguments of `defer h(args)` / `go h(args)` bound at
+			// the statement, the receiver of a bound method value): the value bound where the
+			// closure is created
+			b := freeVarBinding(fv)
+			if b == nil {
+				return v
+			}
+			v = b
+			continue
+		}
 		if pa, ok := v.(*ssa.Parameter); ok && params {
 			b := paramBinding(pa)
 			if b == nil {
@@ -396,7 +487,7 @@ func calleeFn(c ssa.CallInstruction) *ssa.Function {
 // f is a closure deferred where it is created, or an unexported helper whose
 // only use is a `defer f(...)`.
 func deferSiteOf(f *ssa.Function) (*ssa.Function, ssa.Instruction) {
-	ix := indexOf(f.Pkg)
+	ix := indexOf(pkgOf(f))
 	if ix == nil {
 		return nil, nil
 	}
@@ -428,7 +519,7 @@ func deferSiteOf(f *ssa.Function) (*ssa.Function, ssa.Instruction) {
 
 // runViaOnce reports whether f is run as the argument of a sync.Once.Do call, and returns those calls.
 func runViaOnce(f *ssa.Function) []ssa.CallInstruction {
-	ix := indexOf(f.Pkg)
+	ix := indexOf(pkgOf(f))
 	if ix == nil {
 		return nil
 	}
@@ -700,5 +791,50 @@ func phiValuesFrom(v ssa.Value, start []core.Edge) []ssa.Value {
 		}
 	}
 	walk(v)
+	return out
+}
+
+// liveFuncs drops the closures that no listed function creates or references any more:
+// in a program variant a helper inlined (or closure-ized) at every use is hidden, and a
+// closure that only the hidden original created is dead code, while the copies made by
+// inlining refer to closures of their own or share the original's (those stay).
+// Top-level functions and methods are kept as they are.
+func liveFuncs(all []*ssa.Function) []*ssa.Function {
+	listed := map[*ssa.Function]bool{}
+	for _, f := range all {
+		listed[f] = true
+	}
+	live := map[*ssa.Function]bool{}
+	var work []*ssa.Function
+	mark := func(f *ssa.Function) {
+		if f != nil && listed[f] && !live[f] {
+			live[f] = true
+			work = append(work, f)
+		}
+	}
+	for _, f := range all {
+		if f.Parent() == nil {
+			mark(f)
+		}
+	}
+	for len(work) > 0 {
+		f := work[len(work)-1]
+		work = work[:len(work)-1]
+		for _, b := range f.Blocks {
+			for _, in := range b.Instrs {
+				for _, op := range in.Operands(nil) {
+					if g, ok := (*op).(*ssa.Function); ok {
+						mark(g)
+					}
+				}
+			}
+		}
+	}
+	out := all[:0:0]
+	for _, f := range all {
+		if live[f] {
+			out = append(out, f)
+		}
+	}
 	return out
 }
